@@ -4,6 +4,7 @@
 mod dbsim;
 mod gate;
 mod model;
+mod props_conc;
 mod props_crash;
 mod props_seq;
 mod seglogsim;
@@ -53,6 +54,46 @@ impl Engine for StoreSim {
                 rule: "seeded histories of accepted appends (records straddling the 64 KiB block, >2 KiB, >4 KiB, multi-event transactions) with 3-6 sweep checkpoints (index flush held, released, after reopen): for every stream and partition, start in {0..len+1 (all when len<=12, else boundaries + 8 sampled), transaction boundaries +-1, u64::MAX}, both directions, batch in {1,2,3,7,50,len+5}; forward must equal model[start..], reverse must be set-equal to model[..=start] with transaction-contiguous groups in decreasing order of their first position. Non-trivial = >=2 sealed segments, a multi-event transaction larger than a block, both cache hit and miss paths taken.",
                 quick_runs: 320,
                 thorough_runs: 12000,
+                real_components: DB_REAL,
+                stub_components: DB_STUB,
+                assumptions: DB_ASSUME,
+            },
+            PropertyInfo {
+                id: "C04",
+                level: "exploration",
+                rule: "gated scheduler: 1-2 appender clients issuing mostly multi-event transactions (some failing half way on a bad timestamp) and 1-3 reader clients (event/transaction lookups, stream and partition scans in both directions, version queries) on minimum-size segments; the writer thread is parked at every hook point inside handle_write (after each event, after the commit record, after the buffer flush) while readers run; 1-3 process-crash images are taken while the writer is parked inside a transaction and reopened. Oracle: every returned event belongs to a successful transaction of the serial order and every returned group contains all siblings that pass the filter. Non-trivial = a read executed while a writer was parked strictly inside a transaction, or a crash image taken there.",
+                quick_runs: 1600,
+                thorough_runs: 40000,
+                real_components: DB_REAL,
+                stub_components: DB_STUB,
+                assumptions: DB_ASSUME,
+            },
+            PropertyInfo {
+                id: "C15",
+                level: "exploration",
+                rule: "gated scheduler: 1-3 appender and 1-3 reader clients on minimum-size segments; the writer is parked at each of six rollover stages (notably after the live-index swap and before/between the reader-pool installs) and inside sync while readers run complete operations; iterator construction is parked at its yield point while a whole rollover runs; policies uniform / writer-starved / readers-preferred-inside-rollover. Oracle: a read invoked after an acknowledgement was observed returns the event / a version or sequence at least as new / a scan containing it; one reader's observations never go backwards; scans are gapless prefixes of the final serial order. Non-trivial = at least one reader operation executed while a writer was parked inside a rollover stage; distinct by schedule hash.",
+                quick_runs: 1600,
+                thorough_runs: 40000,
+                real_components: DB_REAL,
+                stub_components: DB_STUB,
+                assumptions: DB_ASSUME,
+            },
+            PropertyInfo {
+                id: "C16",
+                level: "exploration",
+                rule: "gated scheduler: 2-6 clients each issuing 3-10 optimistic appends (Exact(v)/Empty computed from what that client last observed, some touching two streams, some with an expected partition sequence) on 1-3 hot streams over 1-4 buckets and writer threads. Oracle over the recorded history: successes ordered by (partition, first sequence) replay on the model with exactly the returned versions and sequences; every rejection is justified at some point of that order compatible with its invocation/response steps; the final observable state equals the serial execution. Non-trivial = two clients had the same expectation for a stream in flight at once.",
+                quick_runs: 2400,
+                thorough_runs: 60000,
+                real_components: DB_REAL,
+                stub_components: DB_STUB,
+                assumptions: DB_ASSUME,
+            },
+            PropertyInfo {
+                id: "C20",
+                level: "exploration",
+                rule: "gated scheduler with the simulated sync timer: 1-6 clients issuing appends (valid, rejected, failing half way, rolling over) under timer-driven sync policies; client tasks are starved between receiving the writer's reply and their next poll while the writer processes later requests, rollovers and timer ticks. After the last operation is issued the scheduler turns fair (round-robin, timer included): every append future must resolve within 2000 steps and 32 sync_idle_intervals of simulated time. Non-trivial = an append future polled for the first time after a rollover that followed its reply.",
+                quick_runs: 2400,
+                thorough_runs: 60000,
                 real_components: DB_REAL,
                 stub_components: DB_STUB,
                 assumptions: DB_ASSUME,
@@ -116,6 +157,10 @@ impl Engine for StoreSim {
             "C02" => props_seq::plan_c02(tier, run_seed),
             "C03" => props_seq::plan_c03(tier, run_seed),
             "C19" => props_seq::plan_c19(tier, run_seed),
+            "C04" => props_conc::plan_c04(tier, run_seed),
+            "C15" => props_conc::plan_c15(tier, run_seed),
+            "C16" => props_conc::plan_c16(tier, run_seed),
+            "C20" => props_conc::plan_c20(tier, run_seed),
             "C05" => props_crash::plan_c05(tier, run_seed),
             "C06" => props_crash::plan_c06(tier, run_seed),
             "C17" => seglogsim::plan_c17(tier, run_seed),
@@ -130,6 +175,10 @@ impl Engine for StoreSim {
             "C02" => props_seq::run_seq("C02", plan),
             "C03" => props_seq::run_seq("C03", plan),
             "C19" => props_seq::run_c19(plan),
+            "C04" => props_conc::run_conc("C04", plan),
+            "C15" => props_conc::run_conc("C15", plan),
+            "C16" => props_conc::run_conc("C16", plan),
+            "C20" => props_conc::run_conc("C20", plan),
             "C05" => props_crash::run_c05(plan),
             "C06" => props_crash::run_c06(plan),
             "C17" => seglogsim::exec_c17(plan),
